@@ -116,6 +116,7 @@ type actorContext struct {
 	slowProcessDuration        time.Duration                   // 慢处理时长
 	slowProcessReceivers       []ActorRef                      // 慢处理消息接收人
 	subscriptions              map[uint64]Subscription         // 订阅列表，用于释放
+	launching                  bool                            // created, OnLaunch not taken up yet: the mailbox is still suspended (see ActorOf)
 }
 
 func (ctx *actorContext) ExecLocalFunc(target ActorRef, function func(ctx ActorContext)) {
@@ -448,6 +449,12 @@ func (ctx *actorContext) processMessage(sender, receiver ActorRef, message Messa
 	case onSchedulerFunc:
 		m()
 	case *OnLaunch:
+		if ctx.launching {
+			// the mailbox was created suspended (see ActorOf): user messages flow from now on. Only for the launch that
+			// follows the creation: the OnLaunch of a restarted instance must not lift a suspension set by its OnRestarted
+			ctx.launching = false
+			ctx.deliverySystemMessage(ctx.ref, ctx.ref, ctx.ref, nil, onResumeMailbox)
+		}
 		ctx.processMessage(sender, receiver, m, false)
 		ctx.recoveryPersistence()
 	case *OnRestarted:
@@ -613,6 +620,11 @@ func (ctx *actorContext) ActorOf(provider ActorProvider, configurator ...ActorDe
 
 	// 初始化分发器及邮箱
 	mb := descriptor.mailboxProvider.Provide(descriptor.dispatcherProvider.Provide(), ctx)
+	// Register below makes the address reachable before OnLaunch has been queued: until the actor takes up its OnLaunch the
+	// mailbox hands out no user message, so that a message sent to the new address in that window is neither handled before
+	// OnLaunch nor by a context that does not know its own reference yet
+	mb.Suspend()
+	ctx.launching = true
 
 	// 创建进程
 	process := newActorProcess(mb)
